@@ -209,8 +209,13 @@ theorem retype_blobs_eq {p : IPack} (h : ∀ b ∈ p.blobs, b.tpe = packType p) 
 
 theorem retype_id (p : IPack) : (retype p).id = p.id := rfl
 
+/-- check's own index is built from the unmarked sections only: it lists exactly the packs of the readers' index. -/
+theorem checkIndexPacks_false (r : Repo) : checkIndexPacks false r = livePacks r := by
+  simp [checkIndexPacks, livePacks]
+
 theorem mem_reconstructed {r : Repo} {p : IPack} (hp : p ∈ livePacks r) : retype p ∈ reconstructed r := by
-  unfold reconstructed
+  unfold reconstructed reconstructedOf
+  rw [checkIndexPacks_false]
   apply List.mem_map_of_mem
   cases hpt : packType p with
   | tree => exact List.mem_append_left _ (List.mem_filter.mpr ⟨hp, by simp [hpt]⟩)
@@ -254,7 +259,7 @@ theorem key_ok {z : Sizes} {r : Repo} {lk : Lookup} {packs : List Id}
   -- the reconstructed pack was read
   have hmiss := missing_nil_of_listErrs hl
   have hcp : checkPack z r (retype p) = [] := by
-    unfold packErrs at hp
+    unfold packErrs packErrsOf at hp
     refine (List.flatMap_eq_nil_iff.mp hp) (retype p) (List.mem_filter.mpr ⟨mem_reconstructed hpl, ?_⟩)
     simp only [retype_id, hmiss, hpid, Bool.and_eq_true]
     exact ⟨by simp, by simpa using hin⟩
@@ -288,6 +293,11 @@ theorem key_ok {z : Sizes} {r : Repo} {lk : Lookup} {packs : List Id}
 typed by that pack.  (Which entry among duplicates is not constrained.)  Implementation: property C17. -/
 def LkSound (r : Repo) (lk : Lookup) : Prop :=
   ∀ t id e, lk t id = some e → ∃ p ∈ livePacks r, p.id = e.pack ∧ packType p = t ∧
+    ∃ b ∈ p.blobs, b.id = id ∧ b.offset = e.offset ∧ b.length = e.length ∧ b.ulen = e.ulen
+
+/-- the same specification for an index built from an explicit pack list -/
+def LkSoundOn (ps : List IPack) (lk : Lookup) : Prop :=
+  ∀ t id e, lk t id = some e → ∃ p ∈ ps, p.id = e.pack ∧ packType p = t ∧
     ∃ b ∈ p.blobs, b.id = id ∧ b.offset = e.offset ∧ b.length = e.length ∧ b.ulen = e.ulen
 
 /-- Only directory nodes carry a subtree (what every archiver writes).  `TreeStreamerOnce` and the node
@@ -362,7 +372,7 @@ theorem nodeErrs_nil_of_walkErrs {lk : Lookup} {out : List (Id × List Node)} {t
 theorem check_sound {z : Sizes} {r : Repo} {lk : Lookup} {fuel : Nat} (hlk : LkSound r lk)
     (hd : DirsOnly r lk) (h : check z true r lk fuel = .findings []) :
     ∀ s ∈ r.snaps, RestoresCorrectly r lk s.tree := by
-  unfold check at h
+  unfold check checkW at h
   split at h
   · cases h
   · split at h
@@ -476,7 +486,7 @@ theorem blobOkB_complete {r : Repo} {lk : Lookup} {t : BT} {id : Id} (h : BlobOk
 /-- The driver's lookup (first matching entry) satisfies the index specification. -/
 theorem lkFirst_sound (r : Repo) : LkSound r (lkFirst r) := by
   intro t id e h
-  unfold lkFirst at h
+  unfold lkFirst lkOf at h
   obtain ⟨p, hp, hpe⟩ := List.exists_of_findSome?_eq_some h
   refine ⟨p, hp, ?_⟩
   split at hpe
@@ -488,6 +498,25 @@ theorem lkFirst_sound (r : Repo) : LkSound r (lkFirst r) := by
     simp only [beq_iff_eq] at hid
     exact ⟨rfl, hpt, b, hmem, hid, rfl, rfl, rfl⟩
   · cases hpe
+
+theorem lkOf_sound (ps : List IPack) : LkSoundOn ps (lkOf ps) := by
+  intro t id e h
+  unfold lkOf at h
+  obtain ⟨p, hp, hpe⟩ := List.exists_of_findSome?_eq_some h
+  refine ⟨p, hp, ?_⟩
+  split at hpe
+  · rename_i hpt
+    simp only [Option.map_eq_some_iff] at hpe
+    obtain ⟨b, hb, rfl⟩ := hpe
+    have hmem := List.mem_of_find?_eq_some hb
+    have hid := List.find?_some hb
+    simp only [beq_iff_eq] at hid
+    exact ⟨rfl, hpt, b, hmem, hid, rfl, rfl, rfl⟩
+  · cases hpe
+
+/-- an index over the packs `check_packs` collects is an index over the readers' pack list, and vice versa -/
+theorem lkSound_iff_checkIndex (r : Repo) (lk : Lookup) : LkSoundOn (checkIndexPacks false r) lk ↔ LkSound r lk := by
+  rw [checkIndexPacks_false]; exact Iff.rfl
 
 /-- decidable sufficient condition for `DirsOnly`: look at every indexed blob id -/
 def dirsOnlyB (r : Repo) (lk : Lookup) : Bool :=
